@@ -79,8 +79,10 @@ def load_known():
 class Verdict:
     """Collects what one check run saw and turns it into stdout lines, evidence and exit code."""
 
-    def __init__(self, prop: str, tier: str, level: str):
+    def __init__(self, prop: str, tier: str, level: str, extra: bool = False):
         self.prop, self.tier, self.level = prop, tier, level
+        # extra: a check of the specification beyond the listed properties; its evidence goes to extras/evidence
+        self.evid = (VERIF / "extras" / "evidence") if extra else EVID
         self.t0 = time.time()
         self.violations = []  # (key, detail dict)
         self.known_hits = {}  # finding id -> count
@@ -138,8 +140,8 @@ class Verdict:
             "wall_s": round(wall, 2),
             "violations": len(self.violations),
         }
-        EVID.mkdir(exist_ok=True)
-        (EVID / f"{self.prop}.json").write_text(json.dumps(ev, indent=1, default=str))
+        self.evid.mkdir(parents=True, exist_ok=True)
+        (self.evid / f"{self.prop}.json").write_text(json.dumps(ev, indent=1, default=str))
         if self.violations:
             return 1
         print(f"OK property={self.prop} tier={self.tier} wall={wall:.1f}s " +
